@@ -568,40 +568,6 @@ theorem reverseNum_antitone' (a b : Rat) : a ≤ b ↔ reverseNum b ≤ reverseN
   rw [Rat.mul_neg, Rat.mul_neg, Rat.mul_one, Rat.mul_one]
   exact Rat.neg_le_neg_iff.symm
 
-/-- `s` is a proper prefix of `t` -/
-def ProperPrefix (s t : List Nat) : Prop := ∃ u, u ≠ [] ∧ s ++ u = t
-
-theorem reverseStr_antitone' (s t : List Nat) (hs : ∀ c ∈ s, c < 256) (ht : ∀ c ∈ t, c < 256)
-    (h1 : ¬ ProperPrefix s t) (h2 : ¬ ProperPrefix t s) :
-    natLexLe (reverseStr s) (reverseStr t) = natLexLe t s := by
-  induction s generalizing t with
-  | nil =>
-    cases t with
-    | nil => rfl
-    | cons y ys => exact absurd ⟨y :: ys, by simp, by simp⟩ h1
-  | cons x xs ih =>
-    cases t with
-    | nil => exact absurd ⟨x :: xs, by simp, by simp⟩ h2
-    | cons y ys =>
-      have hx := hs x (by simp)
-      have hy := ht y (by simp)
-      simp only [reverseStr, List.map_cons, hx, hy, if_true, natLexLe]
-      by_cases c1 : x < y
-      · have a1 : ¬ (255 - x < 255 - y) := by omega
-        have a2 : 255 - y < 255 - x := by omega
-        have a3 : ¬ y < x := by omega
-        simp [a1, a2, a3, c1]
-      · by_cases c2 : y < x
-        · have a1 : 255 - x < 255 - y := by omega
-          simp [a1, c2]
-        · have e : x = y := by omega
-          subst e
-          simp only [Nat.lt_irrefl, if_false]
-          have := ih ys (fun c hc => hs c (by simp [hc])) (fun c hc => ht c (by simp [hc]))
-            (fun ⟨u, hu, e⟩ => h1 ⟨u, hu, by simp [e]⟩) (fun ⟨u, hu, e⟩ => h2 ⟨u, hu, by simp [e]⟩)
-          simpa [reverseStr] using this
-
-
 /-! ### counting and distinct values -/
 section Count
 variable {κ : Type} [DecidableEq κ]
@@ -794,29 +760,113 @@ theorem appendCols_rows (dflt : α) (ts : List (List (List α))) (L : Nat)
       · show (List.zipWith (· ++ ·) t (appendCols (u :: rest))).length = L
         rw [List.length_zipWith, ← hl, Nat.min_self, hL t (by simp)]
 
-/-! #### descending sort through the string reversal -/
+/-! #### reversal by negated dense ranks -/
+section Rank
 
-theorem lexLe_single_str (a b : List Nat) (h : lexLe [.str a] [.str b] = true) : natLexLe a b = true := by
+theorem filter_length_le_of_imp {β : Type} (p q : β → Bool) (D : List β) (h : ∀ z ∈ D, p z = true → q z = true) :
+    (D.filter p).length ≤ (D.filter q).length := by
+  induction D with
+  | nil => simp
+  | cons z D ih =>
+    have ih' := ih (fun w hw => h w (by simp [hw]))
+    have hz := h z (by simp)
+    simp only [List.filter_cons]
+    cases hp : p z <;> cases hq : q z <;> simp <;> first | omega | (simp [hp, hq] at hz)
+
+theorem filter_length_lt_of_imp {β : Type} (p q : β → Bool) (D : List β) (h : ∀ z ∈ D, p z = true → q z = true)
+    (x : β) (hx : x ∈ D) (h1 : p x = false) (h2 : q x = true) :
+    (D.filter p).length < (D.filter q).length := by
+  induction D with
+  | nil => simp at hx
+  | cons z D ih =>
+    have hle := filter_length_le_of_imp p q D (fun w hw => h w (by simp [hw]))
+    have hz := h z (by simp)
+    simp only [List.filter_cons]
+    rcases List.mem_cons.1 hx with rfl | hx'
+    · simp [h1, h2]; omega
+    · have ih' := ih (fun w hw => h w (by simp [hw])) hx'
+      cases hp : p z <;> cases hq : q z <;> simp <;> first | omega | (simp [hp, hq] at hz)
+
+variable {κ : Type} [DecidableEq κ] (le : κ → κ → Bool)
+
+theorem denseRank_mono (ht : ∀ a b c, le a b = true → le b c = true → le a c = true)
+    (ha : ∀ a b, le a b = true → le b a = true → a = b) (D : List κ) (x y : κ) (h : le x y = true) :
+    denseRank le D x ≤ denseRank le D y := by
+  unfold denseRank
+  apply filter_length_le_of_imp
+  intro z _ hz
+  simp only [Bool.and_eq_true, Bool.not_eq_true', decide_eq_false_iff_not] at hz ⊢
+  refine ⟨ht _ _ _ hz.1 h, ?_⟩
+  intro e
+  subst e
+  exact hz.2 (ha _ _ hz.1 h)
+
+theorem denseRank_strict (ht : ∀ a b c, le a b = true → le b c = true → le a c = true)
+    (ha : ∀ a b, le a b = true → le b a = true → a = b) (D : List κ) (x y : κ) (hx : x ∈ D)
+    (h : le x y = true) (hne : x ≠ y) : denseRank le D x < denseRank le D y := by
+  unfold denseRank
+  apply filter_length_lt_of_imp _ _ D _ x hx
+  · simp
+  · simp [h, hne]
+  · intro z _ hz
+    simp only [Bool.and_eq_true, Bool.not_eq_true', decide_eq_false_iff_not] at hz ⊢
+    refine ⟨ht _ _ _ hz.1 h, ?_⟩
+    intro e
+    subst e
+    exact hz.2 (ha _ _ hz.1 h)
+
+/-- the dense rank is an order embedding on the values that occur in the column -/
+theorem denseRank_le_iff (ht : ∀ a b c, le a b = true → le b c = true → le a c = true)
+    (ha : ∀ a b, le a b = true → le b a = true → a = b) (htot : ∀ a b, (le a b || le b a) = true)
+    (D : List κ) (x y : κ) (_hx : x ∈ D) (hy : y ∈ D) :
+    denseRank le D x ≤ denseRank le D y ↔ le x y = true := by
+  constructor
+  · intro hr
+    cases hxy : le x y with
+    | true => rfl
+    | false =>
+      have hyx : le y x = true := by have := htot x y; simpa [hxy] using this
+      have hne : y ≠ x := by intro e; subst e; simp [hyx] at hxy
+      have := denseRank_strict le ht ha D y x hy hyx hne
+      omega
+  · exact denseRank_mono le ht ha D x y
+
+end Rank
+
+/-- negating the rank reverses the order of the key fields, for ALL values of the column -/
+theorem reverseRank_antitone' (D : List SKey) (x y : SKey) (hx : x ∈ D) (hy : y ∈ D) :
+    SKey.le (.num (-((denseRank SKey.le D x : Nat) : Rat))) (.num (-((denseRank SKey.le D y : Nat) : Rat)))
+      = SKey.le y x := by
+  have h := denseRank_le_iff SKey.le SKey.le_trans SKey.le_antisymm SKey.le_total D y x hy hx
+  simp only [SKey.le]
+  rw [Bool.eq_iff_iff]
+  simp only [decide_eq_true_eq, Rat.neg_le_neg_iff, Rat.natCast_le_natCast]
+  exact h
+
+theorem lexLe_single (a b : SKey) (h : lexLe [a] [b] = true) : SKey.le a b = true := by
   simp only [lexLe] at h
-  by_cases e : SKey.str a = SKey.str b
-  · injection e with e; subst e; exact natLexLe_refl a
-  · simpa [e, SKey.le] using h
+  by_cases e : a = b
+  · subst e; have := SKey.le_total a a; simpa using this
+  · simpa [e] using h
 
-/-- a reverse sort on one string column is a descending sort whenever no key is a proper prefix
-of another (and all code points are < 256) -/
-theorem sorted_reverse_str_descending' {α : Type} (dflt : α) (strOf : List α → List Nat) (cols : List (List α))
-    (hc : ∀ r ∈ rowsOf dflt cols, ∀ c ∈ strOf r, c < 256)
-    (hp : ∀ r ∈ rowsOf dflt cols, ∀ s ∈ rowsOf dflt cols, ¬ ProperPrefix (strOf r) (strOf s)) :
-    (rowsOf dflt (sortedCols dflt lexLe (fun r => [SKey.str (reverseStr (strOf r))]) cols)).Pairwise
-      (fun r s => natLexLe (strOf s) (strOf r) = true) := by
-  obtain ⟨hperm, hsorted⟩ :=
-    sortedCols_perm_sorted dflt lexLe lexLe_trans lexLe_total (fun r => [SKey.str (reverseStr (strOf r))]) cols
+/-- **a reverse sort on any single non-numeric key column is a descending sort**, for ALL columns
+(strings with common prefixes, bools, …): rows come out with keys in descending `SKey.le` order -/
+theorem sorted_reverse_descending' {α : Type} (dflt : α) (keyOf : List α → SKey) (cols : List (List α)) :
+    let D := setOfList [] ((rowsOf dflt cols).map keyOf)
+    (rowsOf dflt (sortedCols dflt lexLe
+        (fun r => [SKey.num (-((denseRank SKey.le D (keyOf r) : Nat) : Rat))]) cols)).Pairwise
+      (fun r s => SKey.le (keyOf s) (keyOf r) = true) := by
+  intro D
+  obtain ⟨hperm, hsorted⟩ := sortedCols_perm_sorted dflt lexLe lexLe_trans lexLe_total
+    (fun r => [SKey.num (-((denseRank SKey.le D (keyOf r) : Nat) : Rat))]) cols
   unfold TableRows.SortedBy at hsorted
   refine hsorted.imp_of_mem ?_
   intro r s hr hs h
   have hr' := (hperm.mem_iff).1 hr
   have hs' := (hperm.mem_iff).1 hs
-  have := lexLe_single_str _ _ h
-  rwa [reverseStr_antitone' (strOf r) (strOf s) (hc r hr') (hc s hs') (hp r hr' s hs') (hp s hs' r hr')] at this
+  have mr : keyOf r ∈ D := (mem_setOfList _ _ _).2 (Or.inr (List.mem_map_of_mem hr'))
+  have ms : keyOf s ∈ D := (mem_setOfList _ _ _).2 (Or.inr (List.mem_map_of_mem hs'))
+  have := lexLe_single _ _ h
+  rwa [reverseRank_antitone' D (keyOf r) (keyOf s) mr ms] at this
 
 end CogentModel.TableOps
